@@ -17,6 +17,8 @@
 
 package rm
 
+import "seata.apache.org/seata-go/pkg/remoting/getty"
+
 var rmConfig RmConfig
 
 type RmConfig struct {
@@ -29,4 +31,6 @@ type RmConfig struct {
 // InitRmClient init seata rm client
 func InitRm(cfg RmConfig) {
 	rmConfig = cfg
+	// every session opened from now on (reconnects included) is told the resources
+	getty.SetSessionOpenRequests(registeredResourceRequests)
 }
